@@ -88,6 +88,10 @@ func VH_C07_verify_new_block() {
 	m := &manager{chainContext: &chainContext{sm: &vhC07SM{version: required}}, pcmForLastBlock: &vhC07PCM{ok: ntsOK}}
 	prev := &vhC07Prev{height: sym.I64("prev_height"), ts: sym.I64("prev_ts"), id: sym.Bytes("prev_id", 2)}
 	sym.Assume(sym.And(prev.height >= 0, prev.height < 1<<62))
+	// the parent is the last finalized block or an unfinalised candidate above it
+	fin := &vhC07Prev{height: sym.I64("finalized_height"), ts: 0, id: []byte{0xf1, 0x0a}}
+	sym.Assume(sym.And(fin.height >= 0, fin.height <= prev.height))
+	m.finalized = &bnode{block: fin}
 	b := &vhC07Cand{
 		blockV2: &blockV2{
 			height:    sym.I64("height"),
